@@ -12,7 +12,13 @@ CHECK = {'rule': 'three case kinds around the real varutil.ReadArguments / argsc
          "'k=<<M NL body NL M t NL n x NL' for M in {AB, AAB, ABAB} and every body of length <= 7 (quick) / <= 9 (thorough) over {A, B, NL, blank, x}. "
          'Heredoc content lines include proper prefixes of the marker (also as last line), the marker inside a line, prefix-then-other, empty and '
          'blank-only lines. A heredoc whose blank-trimmed text is empty or starts/ends with NL/CR/VT/FF is NOT excluded any more: its text is '
-         'compared modulo surrounding ASCII white space, everything else (no error, other arguments, eof, bytes consumed, next command) exactly.',
+         'compared modulo surrounding ASCII white space, everything else (no error, other arguments, eof, bytes consumed, next command) exactly. '
+         'Kind loop (TestPropLoop): termexec.RunLoop on a MockupApp whose shared input is a generated script of rec/r2 (record injected $0..$5, a, b, '
+         'path, msg, --), take lines=N|bytes=K|cmd=1 (the command itself reads the following lines / bytes / one ReadArguments command from ctx.IO().In(), '
+         'payload looks like commands), sub (nested RunLoop on the same input), blank lines, unknown commands; compared with a simulation over the script '
+         'text (reference splitter + argument-mapping model): sequence of dispatched commands with their arguments and nesting depth, bytes of the shared '
+         'input consumed at each dispatch and after the loop, every payload byte-for-byte, error iff the model reaches an unknown command. Non-trivial for '
+         'loop cases: a command dispatched after a take, a nested loop, or >= 3 dispatched commands.',
  'assumptions': ['blank = space or tab; escapes outside quotes are exactly \\\\ and \\" (as pinned by varutil/arguments_test.go)',
                  'adjacent bare and quoted pieces form one argument (numbers="12 12" in the library\'s own tests)',
                  'not asserted (never generated / rejected by the reference splitter): a backslash before any other byte, a backslash inside quotes '
@@ -48,17 +54,27 @@ CHECK = {'rule': 'three case kinds around the real varutil.ReadArguments / argsc
                               'heredoc-open-text',
                               'bytes-heredoc-in-grammar',
                               'bytes-heredoc-multiline',
-                              'bytes-heredoc-open-text']},
+                              'bytes-heredoc-open-text',
+                              'loop-case',
+                              'loop-command-after-take',
+                              'loop-take-cmd',
+                              'loop-take-lines-or-bytes',
+                              'loop-take-midline',
+                              'loop-nested',
+                              'loop-take-in-nested',
+                              'loop-unknown-command']},
  'tiers': {'quick': [{'test': '^TestEnum$', 'shards': 4, 'timeout': 240},
                      {'test': '^TestEnumHeredoc$', 'shards': 2, 'timeout': 240, 'env': {'VERIF_C17_HEREDOC_LEN': 7}},
                      {'test': '^TestPropGrammar$', 'checks': 80000, 'shards': 4, 'timeout': 240},
                      {'test': '^TestPropBytes$', 'checks': 100000, 'shards': 2, 'timeout': 240, 'seed_offset': 101},
-                     {'test': '^TestPropInject$', 'checks': 60000, 'shards': 2, 'timeout': 240, 'seed_offset': 202}],
+                     {'test': '^TestPropInject$', 'checks': 60000, 'shards': 2, 'timeout': 240, 'seed_offset': 202},
+                     {'test': '^TestPropLoop$', 'checks': 3000, 'shards': 2, 'timeout': 240, 'seed_offset': 303}],
            'thorough': [{'test': '^TestEnum$', 'shards': 16, 'timeout': 1500},
                         {'test': '^TestEnumHeredoc$', 'shards': 8, 'timeout': 1500},
                         {'test': '^TestPropGrammar$', 'checks': 300000, 'shards': 16, 'timeout': 1500},
                         {'test': '^TestPropBytes$', 'checks': 300000, 'shards': 8, 'timeout': 1500, 'seed_offset': 101},
                         {'test': '^TestPropInject$', 'checks': 200000, 'shards': 8, 'timeout': 1500, 'seed_offset': 202},
+                        {'test': '^TestPropLoop$', 'checks': 40000, 'shards': 8, 'timeout': 1500, 'seed_offset': 303},
                         {'test': '^$', 'fuzz': '^FuzzSplit$', 'fuzztime': '120s', 'gomaxprocs': 4, 'timeout': 400}]}}
 
 TEXT = {'technique': 'exhaustive small-alphabet enumeration (all strings <= 6 / <= 8 bytes over 9 significant bytes) + grammar-based round-trip property '
